@@ -35,7 +35,8 @@ Oracle (S4, implementation only; nothing from the model) - only what C03's state
     (decoded) body
   * FRESH serial: over runs of constructions of all four classes (parse / forward in between, the counter never touched
     by the harness) no serial is given twice, all >= 1 and < 2^32.  HOW the counter advances is S3 only
-  * a constructor given a name outside the DBus grammar or the reserved path (method call) must raise
+  * a constructor given a name outside the DBus grammar or the reserved path (method call) must raise; so must one given
+    a body with more or fewer values than its signature has complete types (the bytes could not carry that body)
   * a message longer than the limit must not be constructed: 2^27 always; the class's lower `_maxMsgLen` only while a probe
     (the suite's own test_too_long) shows that the code honours a subclass value.  Never: "exactly the limit must construct"
   NOT judged here (model correspondence only): the bus's forwarding call `_marshal(False, rawBody=...)` (C14's statement),
@@ -790,6 +791,8 @@ def in_domain(x):
         return False
     if x['cls'] == 'err' and x['error_name'] is None:
         return False
+    if x.get('arity_mismatch'):
+        return False
     if x['cls'] in ('ret', 'err') and x['reply_serial'] is None:
         return False
     return True
@@ -856,6 +859,13 @@ def judge_build(ctx, marshal, message, stream, x, mline):
                     % (CLSNAME[x['cls']], slot, value, VALIDATOR_OF[slot]))
         ctx.violation(key, what, inp=public(x), observed='constructed, rawMessage=' + obs['raw'][:200],
                       expected='an exception: the message cannot be constructed')
+        return obs, m, oob_after
+    if obs['ok'] and x.get('arity_mismatch'):
+        ctx.violation('wrong-arity-body-constructible',
+                      'a %s with signature %r and %d body values is constructed: the bytes cannot carry the body that was given '
+                      '(too few values: body shorter than its signature says; too many: values silently dropped)'
+                      % (CLSNAME[x['cls']], x['signature'], len(case_body(x))), inp=public(x),
+                      observed='constructed, rawBody=' + obs['body'][:200], expected='MarshallingError')
         return obs, m, oob_after
     if obs['ok'] and x['cls'] == 'call' and x['path'] == '/org/freedesktop/DBus/Local':
         ctx.violation('reserved-path-constructible', 'a method call on the reserved path /org/freedesktop/DBus/Local is constructed',
@@ -1038,7 +1048,8 @@ def g_malformed(rng, marshal):
     """A constructor call with (mostly) exactly one thing wrong."""
     x = g_case(rng, marshal, stream='malformed')
     x['next'] = rng.choice([1, 7, 1000])
-    kind = rng.choice(['name', 'name', 'name', 'name', 'reserved', 'rserial', 'limit', 'limit', 'nul', 'toolong'])
+    kind = rng.choice(['name', 'name', 'name', 'name', 'reserved', 'rserial', 'limit', 'limit', 'nul', 'toolong',
+                       'arity', 'arity'])
     cls = x['cls']
     if kind == 'name':
         slots = {'call': ['path', 'member', 'interface', 'destination'], 'ret': ['destination'],
@@ -1071,6 +1082,21 @@ def g_malformed(rng, marshal):
         if cls == 'err':
             x['sender'] = 'a\0b'
         x['_what'] = 'nul'
+    elif kind == 'arity':
+        # a body whose number of values differs from the number of complete types of the signature (repair bf83351 = C10-03:
+        # marshal() raises instead of truncating the longer side)
+        x['_what'] = 'arity:none'
+        if x['signature']:
+            vals = case_body(x)
+            if isinstance(vals, list):
+                if vals and rng.random() < 0.5:
+                    vals = vals[:-1]
+                    x['_what'] = 'arity:too-few'
+                else:
+                    vals = vals + [rng.choice([0, 'x', True])]
+                    x['_what'] = 'arity:too-many'
+                x['body_line'] = vc.to_line(vals)
+                x['arity_mismatch'] = True
     else:
         x['_what'] = 'limit'          # the limit is set by the caller once the real size is known
     return x
